@@ -326,3 +326,75 @@ def check_effects(run, fx, cg):
     run.check(okr and bm, rule, "no-ref-across-borrow-mut", "%d Ref guard(s) dropped before borrow_mut" % len(refs),
               "a shared RefCell borrow is still live when borrow_mut is called (BorrowMutError panic under the lock)" if bm
               else "no borrow_mut call found", g.loc)
+
+
+CONVERSIONS = ("::into", "::from", "::to_string", "::to_owned", "::as_str", "::deref", "::borrow", "::as_ref", "::clone",
+               "::to_str", "::as_bytes")
+
+
+def _strip_conv(t):
+    """remove representation-only conversions (String <-> &str, clone, deref) around a term"""
+    while True:
+        if isinstance(t, H.Sym) and t.what == "call" and isinstance(t.parts[0], str) and t.parts[0].endswith(CONVERSIONS) \
+                and len(t.parts[1]) == 1:
+            t = t.parts[1][0]
+        elif isinstance(t, H.Sym) and t.what in ("addr", "deref") and t.parts:
+            t = t.parts[0]
+        else:
+            return t
+
+
+def check_cache_key(run, fx):
+    rule = "R10.cache-key-agreement"
+    run.rule(rule, "in FsTzdbProvider::get the key used to look the cache up, the key under which the data are inserted and the "
+                   "name with which the TZif data are read are the same value (up to String/&str conversions): two identifiers "
+                   "that share a cache entry read the same file, and a hit returns what a miss would have read")
+    rs = fx["temporal_rs"]
+    g = rs.fn(PROVIDER + "::get")
+    if g is None:
+        run.anchor_missing(rule, "get", "FsTzdbProvider::get not found")
+        return
+    ev = H.Evaluator(fx)
+    ev.inline = lambda p: False
+    ev.call_fn(g, [H.Sym("param", (p["name"],)) for p in g.params])
+    look = [c.parts[1][1] for c in ev.trace if c.parts[0].endswith("BTreeMap::<K, V, A>::get") or c.parts[0].endswith("::contains_key")
+            or c.parts[0].endswith("HashMap::<K, V, S>::get")]
+    ins = [c.parts[1][1] for c in ev.trace if c.parts[0].endswith("::entry") or c.parts[0].endswith("::insert")]
+    read = [c.parts[1][0] for c in ev.trace if c.parts[0].endswith("Tzif::read_tzif") or c.parts[0].endswith("jiff_tzdb::get")
+            or c.parts[0].endswith("Tzif::from_path")]
+    if not look or not ins or not read:
+        run.anchor_missing(rule, "sites", "lookup/insert/read sites not all found (lookup %d, insert %d, read %d)" %
+                           (len(look), len(ins), len(read)), g.loc)
+        return
+    keys = {"lookup": {show(_strip_conv(t)) for t in look}, "insert": {show(_strip_conv(t)) for t in ins},
+            "read": {show(_strip_conv(t)) for t in read}}
+    allk = set().union(*keys.values())
+    run.check(len(allk) == 1, rule, "FsTzdbProvider::get", "lookup, insert and read all use %s" % sorted(allk),
+              "the cache is looked up with %s, filled under %s, but the data are read with %s: entries and files can disagree" %
+              (sorted(keys["lookup"]), sorted(keys["insert"]), sorted(keys["read"])), g.loc)
+
+
+def check_identifier_pure(run, fx, cg):
+    rule = "R10.check-identifier-uses-the-normalizer-only"
+    run.rule(rule, "TimeZoneProvider::check_identifier of the bundled provider decides from the baked IANA normalizer alone: "
+                   "nothing reachable from it touches the file system (an identifier is valid or not independent of which "
+                   "files exist under the zoneinfo directory)")
+    rs = fx["temporal_rs"]
+    f = next((x for x in rs.fns if x.path.endswith("FsTzdbProvider as temporal_rs::provider::TimeZoneProvider>::check_identifier")), None)
+    if f is None:
+        run.anchor_missing(rule, "check_identifier", "not found")
+        return
+    clo = cg.closure({f.path})
+    hits = []
+    for p in clo:
+        h = cg.fns.get(p)
+        if h is None or h.mir is None:
+            continue
+        for c in M.Body(h).calls():
+            tp = str(c.target or "")
+            if tp.startswith(("std::fs::", "std::path::Path::is_file", "std::path::Path::exists", "std::path::Path::metadata",
+                              "std::path::Path::is_dir", "std::path::Path::try_exists", "std::fs::File", "std::env::")) \
+                    or "::read_tzif" in tp or "::from_path" in tp:
+                hits.append("%s -> %s" % (p.rsplit("::", 1)[-1], tp))
+    run.check(not hits, rule, "check_identifier", "no file-system access reachable (%d functions)" % len(clo),
+              "check_identifier reaches the file system: %s" % hits[:4], f.loc)
